@@ -151,6 +151,31 @@ def extend(prog, chk):
         detail.add('the existing entries are not moved into the new vector')
     chk.decide(good, 'grow-in-place', U, f['name'], 'effect', loc, 'a successful extension is wrong: ' + '; '.join(sorted(detail)),
                why='array object %s updated in place: new vector of n_alloc + %s entries, [0, n_crystal) moved' % (root, p1['name']))
+    # the replaced vector: released exactly when it is a heap vector (a user array), never when it is the built-in table
+    builtin = prog.global_def('Crystal_arr', required=False)
+    rel_ok, rel_detail = True, set()
+    for p in oks:
+        old = Rat.sym(nl(root) + '.crystal')
+        diff = it.interval_of(old - Rat.sym('Crystal_arr.crystal'), p)
+        frees = [e for e in p.events if e.kind == 'call' and e.name in ('free', 'xrl_free') and e.args and e.args[0] is not None and
+                 nl(e.args[0].canon()) == nl(root) + '.crystal']
+        realloc = [e for e in p.events if e.kind == 'call' and e.name == 'realloc' and e.args and e.args[0] is not None and
+                   nl(e.args[0].canon()) == nl(root) + '.crystal']
+        is_user = diff.excludes_zero()
+        is_builtin = diff.lo is not None and diff.lo == diff.hi == 0
+        if is_user and not frees and not realloc:
+            rel_ok = False
+            rel_detail.add('the replaced vector of a user array is never released: every growth step leaks n_alloc entries')
+        elif is_builtin and (frees or realloc):
+            rel_ok = False
+            rel_detail.add('the built-in table (static storage) is handed to free()')
+        elif not is_user and not is_builtin:
+            rel_ok = False
+            rel_detail.add('the path does not distinguish the built-in table from a heap vector before %s' % (
+                'releasing the old vector' if frees or realloc else 'dropping the old vector'))
+    chk.decide(rel_ok, 'grow-in-place', U, f['name'], 'old-vector-released', loc,
+               'a successful extension mishandles the vector it replaces: ' + '; '.join(sorted(rel_detail)),
+               why='old vector freed iff it is not Crystal_arr.crystal')
     fails = zero_paths(it, paths)
     okf = bool(fails) and all(not any(e.kind == 'store' and nl(e.lv).startswith(nl(root)) for e in p.events) for p in fails) and \
         all(sets_error(p) for p in fails)
